@@ -116,6 +116,7 @@ package texttable
 //@   assigns heap[tabular.propertyImpl.properties], new(tabular.valueProperty), ttab(t).ErrorContainer.errors_, elemscap(ttab(t).ErrorContainer.errors_), ghost cbErrN, ghost cbErrLog, ghost cbCallN, ghost cbCallSelf, ghost cbCallOwner, ghost stage, ghost fires, ghost stageR, ghost firesR, ghost stageT, ghost stageC, ghost Wn, ghost Wchunk, ghost Wfailed, ghost ttRules, ghost ttContent, ghost ttWit, ghost ttLineWit, new(int), new(string), new(align.Alignment), new(decoration.WidthString), new([]decoration.WidthString), new(decoration.emitter), new(tabular.Cell)
 //@   requires [writer-ok] !Wfailed
 //@   call InvokeRenderCallbacks after assume alignsValid(ttab(t)) && measuredOK()
+//@   ensures [exactly-one-render-pass] !(t.decor == decoration.EmptyDecoration) ==> stageT[ttab(t)] == old(stageT)[ttab(t)] + 2 @C13
 //@   ensures [error-list-grows-only-by-callback-errors] cbErrN >= old(cbErrN) && len(ttab(t).ErrorContainer.errors_) == old(len(ttab(t).ErrorContainer.errors_)) + (cbErrN - old(cbErrN)) @C14,C11
 //@   ensures [table-still-wellformed] tbl(t.Table) @C09,C14
 //@   ensures [empty-decoration-refused] t.decor == decoration.EmptyDecoration ==> result != nil && Wn == old(Wn) @C17
